@@ -192,7 +192,9 @@ def dfs(factory_spec, cfg, bound, prefix=(), max_steps=400, cap=None, recurse=Tr
                                       "cfg": cfg, "labels": list(x.labels), "harness": factory_spec})
         # children: deviate at every point after the prefix
         f = s = 0
-        for i in range(len(x.labels)):
+        # a run that did not terminate is reported by the harness; do not fan out over its (cyclic) tail
+        limit = len(x.labels) if not x.horizon else min(len(x.labels), len(p) + 40)
+        for i in range(limit):
             if i >= len(p):
                 for lab, c in x.alts[i][1:]:
                     cc = (f + c[0], s + c[1])
